@@ -15,6 +15,27 @@ class Deadlock(Exception):
     pass
 
 
+def _flatview(a):
+    """The memory of a buffer argument in memory order, as the upper-case (buffer) calls of mpi4py
+    see it: they accept any single-segment buffer (C- or Fortran-contiguous) and transfer its raw
+    memory; the array layout is NOT part of the message."""
+    import numpy as np
+    a = np.asarray(a) if not isinstance(a, np.ndarray) else a
+    if a.flags.c_contiguous:
+        return a.reshape(-1)
+    if a.flags.f_contiguous:
+        return a.T.reshape(-1)
+    raise ValueError("ndarray is not contiguous")
+
+
+def _fill(buf, raw):
+    v = _flatview(buf)
+    if v.size != raw.size or v.dtype.itemsize != raw.dtype.itemsize:
+        raise ValueError("message truncated / buffer size mismatch: %d x %d bytes into %d x %d bytes"
+                         % (raw.size, raw.dtype.itemsize, v.size, v.dtype.itemsize))
+    v[...] = raw.view(v.dtype) if raw.dtype != v.dtype else raw
+
+
 class World:
     def __init__(self, n, timeout=10.0, jitter_seed=None):
         self.n = n
@@ -62,11 +83,10 @@ class Comm:
         return o
 
     def Send(self, arr, dest):
-        import numpy as np
-        self.send(np.array(arr, copy=True), dest)
+        self.send(_flatview(arr).copy(), dest)
 
     def Recv(self, buf, source):
-        buf[...] = self.recv(source)
+        _fill(buf, self.recv(source))
 
     def _coll(self, x):
         self._jitter()
@@ -94,10 +114,9 @@ class Comm:
         return self._coll(x)[root]
 
     def Bcast(self, buf, root=0):
-        import numpy as np
-        g = self._coll(np.array(buf, copy=True) if self.r == root else None)
+        g = self._coll(_flatview(buf).copy() if self.r == root else None)
         if self.r != root:
-            buf[...] = g[root]
+            _fill(buf, g[root])
 
     def Barrier(self):
         self._coll(None)
